@@ -73,6 +73,7 @@ type Report struct {
 	ResetVars   []string          `json:"reset_globals"`
 	ExtMutated  []string          `json:"globals_written_from_another_package"`
 	SkippedSync int               `json:"uses_that_are_sync_calls_themselves"`
+	ChanSites   int               `json:"yield_sites_before_channel_operations"`
 	Overlay     map[string]string `json:"-"`
 }
 
@@ -598,6 +599,54 @@ func instrumentPackage(fset *token.FileSet, imp types.Importer, lp *listPkg, pi 
 			site := Site{ID: *siteID, File: rel, Line: pos.Line, Kind: "global", Var: obj.Name()}
 			*siteID++
 			rep.Sites = append(rep.Sites, site)
+			add(off(st.Pos()), 0, fmt.Sprintf("simrt_V.Yield(%d); ", site.ID))
+			needSimrt = true
+			return true
+		})
+
+		// 3b. yields before statements with channel operations (send, receive, select, close, range
+		// over a channel): the scheduler can then hold a goroutine back right in front of its select
+		// while the others run on - which of several ready cases the runtime then picks stays the
+		// runtime's choice (DESIGN.md §6)
+		ast.Inspect(f, func(n ast.Node) bool {
+			isChanOp := false
+			switch x := n.(type) {
+			case *ast.SendStmt, *ast.SelectStmt:
+				isChanOp = true
+			case *ast.UnaryExpr:
+				isChanOp = x.Op == token.ARROW
+			case *ast.RangeStmt:
+				if tv, ok := info.Types[x.X]; ok && tv.Type != nil {
+					_, isChanOp = tv.Type.Underlying().(*types.Chan)
+				}
+			case *ast.CallExpr:
+				if id, ok := x.Fun.(*ast.Ident); ok && id.Name == "close" {
+					_, isChanOp = info.Uses[id].(*types.Builtin)
+				}
+			}
+			if !isChanOp {
+				return true
+			}
+			st := stmtOf(n)
+			if st == nil {
+				return true
+			}
+			for {
+				if ls, ok := parents[st].(*ast.LabeledStmt); ok {
+					st = ls
+					continue
+				}
+				break
+			}
+			if yielded[st] {
+				return true
+			}
+			yielded[st] = true
+			pos := fset.Position(st.Pos())
+			site := Site{ID: *siteID, File: rel, Line: pos.Line, Kind: "chan"}
+			*siteID++
+			rep.Sites = append(rep.Sites, site)
+			rep.ChanSites++
 			add(off(st.Pos()), 0, fmt.Sprintf("simrt_V.Yield(%d); ", site.ID))
 			needSimrt = true
 			return true
